@@ -6,6 +6,30 @@ ALL = ["C%02d" % i for i in range(1, 21)]
 
 # id -> (technique, level text, level note, design ref)
 CLAIMED = {
+ "C04": ("proptest: executed vfunc wrappers against recording trampolines in generated fake vftables (L3), rustc offset_of! probes on <T>Vftable for both widths (L2), reference slot model for contradicting index/size (L0)",
+         "Generated-input search with execution as oracle: every emitted virtual-call wrapper is run on the x86-64 host against a table of recording stubs (two different tables per wrapper) and must make exactly one call into its slot with receiver and arguments in order and pass the result through; slot offsets and table sizes are judged by rustc on both widths; contradicting #[index]/#[size] must be rejected. Exploration.",
+         "Execution on the host uses ABI strings normalised to C; integer and pointer arguments only; up to 10 integer-class arguments observed (6 registers + 4 stack slots).",
+         "DESIGN.md §4 C04"),
+ "C05": ("proptest: executed address-bound wrappers against recording trampolines planted (mmap MAP_FIXED_NOREPLACE) at the declared addresses; L0 rejection cases",
+         "Generated-input search with execution as oracle: each emitted method is called once on the host; the stub planted at the literal address records id, receiver, arguments (registers and stack) and supplies the return value; a driver binding with the declared return type must compile. Functions without address / with unresolvable parameter or return type / with #[index] must be rejected. Exploration.",
+         "Same execution assumptions as C04; addresses are drawn from ranges that can be mapped on the host.",
+         "DESIGN.md §4 C05"),
+ "C06": ("proptest: hierarchy generator with single-slot mutations of a compatible prefix (verdict, L0), syn + rustc offset probes for the shared/own vftable pointer on both widths, executed vftable() accessor (L3)",
+         "Generated-input search: compatible derived blocks must be accepted and each of eight single mutations rejected; a struct has its own vftable pointer field (at offset 0, first) iff it declares a block and its first base supplies none, else the first base sits at offset 0; vftable() executed on the host returns the word stored at offset 0. Exploration.",
+         "Differences in parameter names, docs and visibility between base and derived slots are not generated (the property fixes the verdict only for name, receiver, parameter types, return type, convention).",
+         "DESIGN.md §4 C06"),
+ "C07": ("proptest: executed re-exposed functions and AsRef/AsMut conversions against the reference method-surface model; compile-time probe for absent conversions",
+         "Generated-input search with execution as oracle: for every function the reference model says is re-exposed on a derived type (with its possibly renamed name), the call must land exactly once in the original function's stub with the receiver equal to the sub-object's address along the base path; AsRef/AsMut land at the base's offset; for repeated base types an inherent-const-over-trait-const probe shows that no conversion exists. Exploration.",
+         "Sub-object offsets come from the reference layout model (verified against rustc by C01).",
+         "DESIGN.md §4 C07"),
+ "C08": ("proptest: enum generator; executed discriminant/size/align/Default printing on the host (L3), const probes on i686-pc-windows-msvc (L2), injected defects must be rejected (L0)",
+         "Generated-input search: every variant's value, the enum's size/alignment and its Default are printed by the compiled code and compared with the description; the same on a 32-bit target through const probes; out-of-range values, bad default markers are rejected. Known finding F04 (negative value for unsigned base) is excluded by construction and demonstrated by its replay. Exploration.",
+         "Values are limited to what the grammar's isize literals can write.",
+         "DESIGN.md §4 C08"),
+ "C15": ("proptest: executed singleton and extern-value accessors against memory mapped at the declared addresses; L0 rejection of extern values without address",
+         "Generated-input search with execution as oracle: type singletons dereference once (null gives None), enum singletons read the value in place, extern accessors return a reference to exactly the declared address with the declared type, writes are visible there. Exploration.",
+         "Addresses are 64-aligned and drawn from ranges that can be mapped on the host.",
+         "DESIGN.md §4 C15"),
  "C14": ("proptest rich multi-module inputs through pyxis::build on disk; file-set and exact item-set oracle (syn), marker-const placement for backend text; injected name collisions must be errors",
          "Generated-input search: the output directory must hold exactly one file per module, each with exactly the declared structs/enums/vftable structs/accessors; rust prologue/epilogue markers in order and position, other backends absent; every injected duplicate definition (type/type, type/enum, type/extern, user <T>Vftable) must be an error. Exploration.",
          "Backend text is observed through uniquely named marker consts placed in it by the generator.",
